@@ -1,4 +1,5 @@
 import MpVerif.C10.Lemmas
+import MpVerif.Gen.StatusReport
 /-!
 # C10 — solve-result codes are classified and reported as documented
 
@@ -12,6 +13,15 @@ structure of `ReportSolution2AMPL`) are *regenerated on every run* from the work
 All theorems quantify over **every** `c : Int` (not only −200..999) and every answer.
 
 (Version for the tree with repo_patches/C10-fix-*.diff applied: every statement at full strength.)
+
+Statement audit (round 4): every theorem with a hypothesis, and every `↔`, is followed by `example`s exhibiting concrete
+non-trivial instances (both directions for `↔`).  Theorems about the hand model (`report`, `extras`, `msgTable`, `regLt`,
+`addResults`) are transferred to the definitions regenerated from the source by the `C10_gen_*` /
+`C10_report_model_eq_generated` theorems; `C10_code_echo_generated` states the code clause directly about them.
+Totalised definitions: `classify`/`lookup` return `.unclassified` when no row contains the code — this is also the
+documented answer (`C10_ranges`, `C10_ranges_partition` show it is not a default hiding an overlap); `nameClass` returns
+`none` for an unknown enumerator and `C10_enum_class` demands `some`; the predicates `assert(IsSolStatusRetrieved())`
+in the source: `C10_not_set_unclassified` covers the excluded code −200 (NDEBUG behaviour: no class at all).
 -/
 namespace MpVerif.C10
 open MpVerif.Gen.Status
@@ -94,6 +104,63 @@ theorem C10_infeasible_iff (c : Int) : isProblemInfeasible c = true ↔ document
 theorem C10_solvedOrFeasible_iff (c : Int) : isProblemSolvedOrFeasible c = true ↔ candidate c = true := by
   c10_doc; c10_unfold_gen <;> omega
 
+/-- decide one predicate value from an interval hypothesis in the context -/
+macro "c10_pred" : tactic => `(tactic| first
+  | (c10_unfold_gen; omega)
+  | (rw [Bool.eq_false_iff]; intro hh; c10_unfold_gen; omega))
+
+/-- all six range predicates at once: the vector of answers is a function of the documented class
+    (so "limit, no solution" 470–499 and "failure" 500–999, which have no predicate of their own, are exactly the
+    codes in 0..999 on which every predicate is false, together with "solved?" 100–199) -/
+theorem C10_predicates_by_class (c : Int) :
+    (isProblemSolved c, isProblemSolvedOrFeasible c, isProblemInfeasible c, isProblemUnbounded c,
+     isProblemIndiffInfOrUnb c, isProblemInfOrUnb c) =
+    (match documented c with
+     | .solved => (true, true, false, false, false, false)
+     | .unboundedFeas => (false, true, false, true, false, true)
+     | .unboundedNoFeas => (false, false, false, true, false, true)
+     | .limitFeas => (false, true, false, false, false, false)
+     | .infeasible => (false, false, true, false, false, true)
+     | .limitInfUnb => (false, false, false, false, true, true)
+     | .uncertain | .limitNoFeas | .failure | .unclassified => (false, false, false, false, false, false)) := by
+  have hcases : c < 0 ∨ (0 ≤ c ∧ c ≤ 99) ∨ (100 ≤ c ∧ c ≤ 199) ∨ (200 ≤ c ∧ c ≤ 299) ∨ (300 ≤ c ∧ c ≤ 349) ∨ (350 ≤ c ∧ c ≤ 399) ∨
+      (400 ≤ c ∧ c ≤ 449) ∨ (450 ≤ c ∧ c ≤ 469) ∨ (470 ≤ c ∧ c ≤ 499) ∨ (500 ≤ c ∧ c ≤ 999) ∨ 999 < c := by omega
+  rcases hcases with h | h | h | h | h | h | h | h | h | h | h
+  case inl => rw [(doc_unclassified c).mpr (Or.inl h)]; simp only [Prod.mk.injEq]; refine ⟨?_, ?_, ?_, ?_, ?_, ?_⟩ <;> c10_pred
+  case inr.inl => rw [(doc_solved c).mpr h]; simp only [Prod.mk.injEq]; refine ⟨?_, ?_, ?_, ?_, ?_, ?_⟩ <;> c10_pred
+  case inr.inr.inl => rw [(doc_uncertain c).mpr h]; simp only [Prod.mk.injEq]; refine ⟨?_, ?_, ?_, ?_, ?_, ?_⟩ <;> c10_pred
+  case inr.inr.inr.inl => rw [(doc_infeasible c).mpr h]; simp only [Prod.mk.injEq]; refine ⟨?_, ?_, ?_, ?_, ?_, ?_⟩ <;> c10_pred
+  case inr.inr.inr.inr.inl => rw [(doc_unboundedFeas c).mpr h]; simp only [Prod.mk.injEq]; refine ⟨?_, ?_, ?_, ?_, ?_, ?_⟩ <;> c10_pred
+  case inr.inr.inr.inr.inr.inl => rw [(doc_unboundedNoFeas c).mpr h]; simp only [Prod.mk.injEq]; refine ⟨?_, ?_, ?_, ?_, ?_, ?_⟩ <;> c10_pred
+  case inr.inr.inr.inr.inr.inr.inl => rw [(doc_limitFeas c).mpr h]; simp only [Prod.mk.injEq]; refine ⟨?_, ?_, ?_, ?_, ?_, ?_⟩ <;> c10_pred
+  case inr.inr.inr.inr.inr.inr.inr.inl => rw [(doc_limitInfUnb c).mpr h]; simp only [Prod.mk.injEq]; refine ⟨?_, ?_, ?_, ?_, ?_, ?_⟩ <;> c10_pred
+  case inr.inr.inr.inr.inr.inr.inr.inr.inl => rw [(doc_limitNoFeas c).mpr h]; simp only [Prod.mk.injEq]; refine ⟨?_, ?_, ?_, ?_, ?_, ?_⟩ <;> c10_pred
+  case inr.inr.inr.inr.inr.inr.inr.inr.inr.inl => rw [(doc_failure c).mpr h]; simp only [Prod.mk.injEq]; refine ⟨?_, ?_, ?_, ?_, ?_, ?_⟩ <;> c10_pred
+  case inr.inr.inr.inr.inr.inr.inr.inr.inr.inr => rw [(doc_unclassified c).mpr (Or.inr h)]; simp only [Prod.mk.injEq]; refine ⟨?_, ?_, ?_, ?_, ?_, ?_⟩ <;> c10_pred
+
+/-- the code −200 (`NOT_SET`, excluded by the `assert`s of the source) and every other code outside 0..999 has no class -/
+theorem C10_not_set_unclassified :
+    documented NOT_SET = .unclassified ∧ isSolStatusRetrieved NOT_SET = false ∧
+    (∀ c : Int, (c < 0 ∨ 999 < c) → (isProblemSolved c, isProblemSolvedOrFeasible c, isProblemInfeasible c, isProblemUnbounded c,
+        isProblemIndiffInfOrUnb c, isProblemInfOrUnb c) = (false, false, false, false, false, false)) := by
+  refine ⟨by decide, by decide, ?_⟩
+  intro c hc
+  have := C10_predicates_by_class c
+  have hd : documented c = .unclassified := (doc_unclassified c).mpr hc
+  rw [hd] at this; exact this
+
+-- instances for the `↔` theorems above (one per direction)
+example : isProblemSolved 57 = true ∧ documented 57 = .solved := by decide
+example : isProblemSolved 100 = false ∧ documented 100 ≠ .solved := by decide
+example : isProblemSolvedOrFeasible 430 = true ∧ candidate 430 = true := by decide
+example : isProblemSolvedOrFeasible 350 = false ∧ candidate 350 = false := by decide
+example : isProblemInfeasible 299 = true ∧ documented 299 = .infeasible := by decide
+example : isProblemInfeasible 300 = false ∧ documented 300 ≠ .infeasible := by decide
+example : isProblemUnbounded 399 = true ∧ isProblemUnbounded 400 = false := by decide
+example : isProblemIndiffInfOrUnb 469 = true ∧ isProblemIndiffInfOrUnb 470 = false := by decide
+example : isProblemInfOrUnb 455 = true ∧ isProblemInfOrUnb 420 = false := by decide
+example : isSolStatusRetrieved (-200) = false ∧ isSolStatusRetrieved (-199) = true := by decide
+
 /-- solved ⇒ solved-or-feasible; infeasible ⇒ inf-or-unb; unbounded ⇒ inf-or-unb; indiff ⇒ inf-or-unb -/
 theorem C10_predicate_inclusions (c : Int) :
     (isProblemSolved c = true → isProblemSolvedOrFeasible c = true) ∧
@@ -137,6 +204,18 @@ theorem C10_alt_files_count (a : Answer) :
 theorem C10_chain_forwards_code (a : Answer) : finalCodeWritten a = a.code ∧ altCodeWritten a = a.code := by
   constructor <;> c10_unfold_gen
 
+/-- the code clause stated directly about the definitions regenerated from the source: first argument of
+    `HandleSolution` / `HandleFeasibleSolution` pushed through the generated forwarding hops -/
+theorem C10_code_echo_generated (a : Answer) :
+    (reportGen a).codeWritten = a.code ∧ (∀ c ∈ (reportGen a).altCodes, c = a.code) ∧
+    (reportGen a).altCodes.length = (if a.solStub = true then a.nAlt else 0) := by
+  rw [← C10_report_model_eq_generated a]
+  exact ⟨C10_code_echo a, C10_alt_code_echo a, C10_alt_files_count a⟩
+
+-- instances: a limit code with two pool solutions and a stub; the same without stub (hypothesis of the membership is then vacuous, the count says so)
+example : (report { code := 402, nObj := 1, hasPrimal := true, hasDual := true, nAlt := 2, solStub := true }).altCodes = [402, 402] := by decide
+example : (report { code := -7, nObj := 0, hasPrimal := false, hasDual := false, nAlt := 3, solStub := false }).altCodes = [] := by decide
+
 /-- primal / dual vectors are passed on exactly when the solver returned them -/
 theorem C10_vectors_echo (a : Answer) :
     (report a).primalPassed = a.hasPrimal ∧ (report a).dualPassed = a.hasDual := ⟨rfl, rfl⟩
@@ -146,9 +225,16 @@ theorem C10_objective_iff (a : Answer) :
     (report a).objectiveShown = true ↔ (candidate a.code = true ∧ a.nObj > 0) := by
   unfold report
   simp only [Bool.and_eq_true, decide_eq_true_eq, C10_solvedOrFeasible_iff a.code]
+-- both directions of `C10_objective_iff`
+example : (report { code := 310, nObj := 2, hasPrimal := false, hasDual := false }).objectiveShown = true ∧ candidate 310 = true := by decide
+example : (report { code := 310, nObj := 0, hasPrimal := true, hasDual := true }).objectiveShown = false := by decide
+example : (report { code := 150, nObj := 1, hasPrimal := true, hasDual := true }).objectiveShown = false ∧ candidate 150 = false := by decide
 /-- the objective value is never shown without objective values, whatever the code -/
 theorem C10_no_objective_no_value (a : Answer) (h : a.nObj = 0) : (report a).objectiveShown = false := by
   unfold report; simp [h]
+
+-- the hypothesis `nObj = 0` with a candidate code (the interesting case)
+example : ({ code := 0, nObj := 0, hasPrimal := true, hasDual := true } : Answer).nObj = 0 ∧ candidate 0 = true := by decide
 
 /-! ## 5. Other observable uses of the classification (message variants, suffixes) -/
 
@@ -186,6 +272,169 @@ theorem C10_iis_suffix_iff (a : Answer) :
       documented a.code = .unboundedNoFeas ∨ documented a.code = .limitInfUnb) ∧ a.iisOpt = true) := by
   unfold extras
   simp only [Bool.and_eq_true, Bool.or_eq_true, C10_infOrUnb_iff a.code, C10_indiffInfOrUnb_iff a.code, or_assoc, or_self]
+
+-- instances (true / false side of each `↔`)
+example : (extras { code := 401, nObj := 1, hasPrimal := true, hasDual := true, feasrelax := true, origObj := true }).feasrelaxShown = true := by decide
+example : (extras { code := 401, nObj := 2, hasPrimal := true, hasDual := true, feasrelax := true }).feasrelaxShown = false := by decide
+example : (extras { code := 7, nObj := 1, hasPrimal := true, hasDual := true, kappaOpt := true }).kappaSuffix = true ∧
+          (extras { code := 107, nObj := 1, hasPrimal := true, hasDual := true, kappaOpt := true }).kappaSuffix = false := by decide
+example : (extras { code := 460, nObj := 1, hasPrimal := true, hasDual := true, rayPrimalOpt := true, rayDualOpt := true }).unbddSuffix = true ∧
+          (extras { code := 460, nObj := 1, hasPrimal := true, hasDual := true, rayPrimalOpt := true, rayDualOpt := true }).dunbddSuffix = true ∧
+          (extras { code := 250, nObj := 1, hasPrimal := true, hasDual := true, rayPrimalOpt := true, rayDualOpt := true }).unbddSuffix = false ∧
+          (extras { code := 350, nObj := 1, hasPrimal := true, hasDual := true, rayPrimalOpt := true, rayDualOpt := true }).dunbddSuffix = false := by decide
+example : (extras { code := 399, nObj := 1, hasPrimal := true, hasDual := true, iisOpt := true }).iisSuffix = true ∧
+          (extras { code := 400, nObj := 1, hasPrimal := true, hasDual := true, iisOpt := true }).iisSuffix = false := by decide
+
+/-! ## 6. Round 4 — the composition logic regenerated from the source equals the hand model
+
+`MpVerif.Gen.StatusReport` is rewritten on every run from `ReportSolution2AMPL`, `ReportStandardSuffixes`,
+`ReportRays`, `CalculateAndReportIIS`, `ReportResults`/`ReportSolution`/`ReportSuffixes`, `RegEntry::operator<`
+and `AddSolveResults`.  The `C10_gen_*` theorems make every theorem about the hand model a theorem about the
+generated definitions; a change of a guard, of the order of the pieces or of the insertion logic breaks them. -/
+
+/-! every step of `ReportSolution2AMPL` (message pieces, `obj_value`, rounding, `HandleSolution`): same labels, same
+    order, same guards as the hand model -/
+theorem C10_gen_msgTable : Gen.StatusReport.msgTable = msgTable := rfl
+
+/-- the guards of `.kappa`, `.unbdd`, `.dunbdd`, `.iis` in the source are the hand model's -/
+theorem C10_gen_suffix_guards (a : Answer) :
+    (extras a).kappaSuffix = Gen.StatusReport.kappaSuffixGuard a ∧ (extras a).unbddSuffix = Gen.StatusReport.unbddGuard a ∧
+    (extras a).dunbddSuffix = Gen.StatusReport.dunbddGuard a ∧ (extras a).iisSuffix = Gen.StatusReport.iisGuard a :=
+  ⟨rfl, rfl, rfl, rfl⟩
+
+/-- suffixes are reported before the solution is written; the .sol file before the solver's own output -/
+theorem C10_gen_steps :
+    Gen.StatusReport.stepsReportResults = stepsReportResults ∧ Gen.StatusReport.stepsReportSolution = stepsReportSolution ∧
+    Gen.StatusReport.stepsReportSuffixes = stepsReportSuffixes := by decide
+
+/-- `StdBackend` declares exactly the status predicates that are translated (none is outside the model) -/
+theorem C10_gen_predicate_set :
+    Gen.StatusReport.predicateNames = predicateNames ∧
+    (∀ n ∈ predicateNames, n ∈ predTable.map (·.1)) ∧ predTable.length = predicateNames.length := by decide
+
+theorem C10_gen_regEntryLt (x y : Int × Int) : Gen.StatusReport.regEntryLt x y = regLt x y := by
+  simp only [Gen.StatusReport.regEntryLt, regLt, ltB, gtB]
+  by_cases h1 : x.1 < y.1 <;> by_cases h2 : x.1 > y.1 <;> by_cases h3 : x.1 = y.1 <;> by_cases h4 : x.2 > y.2 <;>
+    simp [h1, h2, h3, h4] <;> omega
+
+theorem C10_gen_addRejects (canReplace present : Bool) :
+    Gen.StatusReport.addRejects canReplace present = (!canReplace && present) := rfl
+
+/-! ### consequences for the message -/
+
+theorem mem_msgSteps (a : Answer) (l : String) : l ∈ msgSteps a ↔ ∃ p ∈ msgTable, p.2 a = true ∧ p.1 = l := by
+  unfold msgSteps
+  simp only [List.mem_map, List.mem_filter]
+  constructor
+  · rintro ⟨p, ⟨hp, hg⟩, rfl⟩; exact ⟨p, hp, hg, rfl⟩
+  · rintro ⟨p, hp, hg, rfl⟩; exact ⟨p, ⟨hp, hg⟩, rfl⟩
+
+/-- the executed steps keep the source order -/
+theorem C10_msg_order (a : Answer) : (msgSteps a).Sublist (msgTable.map (·.1)) :=
+  List.Sublist.map _ List.filter_sublist
+
+/-- the status text is always the first piece and `HandleSolution` is always called -/
+theorem C10_msg_status_first_handle_always (a : Answer) :
+    (msgSteps a).head? = some "write {}: {}" ∧ "call HandleSolution" ∈ msgSteps a ∧
+    (msgTable.map (·.1)).getLast? = some "call HandleSolution" := by
+  refine ⟨?_, ?_, by decide⟩
+  · simp [msgSteps, msgTable, List.filter]
+  · rw [mem_msgSteps]; exact ⟨("call HandleSolution", fun _ => true), by simp [msgTable], rfl, rfl⟩
+
+/-- the objective value is put into the message (by one of the two objective pieces) exactly when `report` says so -/
+theorem C10_msg_objective_piece (a : Answer) :
+    (∃ l ∈ objectiveLabels, l ∈ msgSteps a) ↔ (report a).objectiveShown = true := by
+  unfold report objectiveLabels
+  simp only [mem_msgSteps, msgTable, List.mem_cons, List.not_mem_nil, or_false, exists_eq_or_imp, exists_eq_left]
+  cases isProblemSolvedOrFeasible a.code <;> by_cases h0 : a.nObj = 0 <;> by_cases h1 : a.nObj > 1 <;>
+    simp [h0, h1] <;> omega
+
+/-- … and never twice -/
+theorem C10_msg_objective_once (a : Answer) :
+    ¬ ("write ; objective {}" ∈ msgSteps a ∧ "write objective {}" ∈ msgSteps a) := by
+  simp only [mem_msgSteps, msgTable, List.mem_cons, List.not_mem_nil, or_false, exists_eq_or_imp, exists_eq_left]
+  cases isProblemSolvedOrFeasible a.code <;> by_cases h1 : a.nObj > 1 <;> simp [h1]
+
+/-- `obj_value` (the number passed to the solution handler) is set exactly for a candidate with a single objective value -/
+theorem C10_msg_obj_value (a : Answer) :
+    "set obj_value" ∈ msgSteps a ↔ (report a).objValuePassed = true := by
+  unfold report
+  simp only [mem_msgSteps, msgTable, List.mem_cons, List.not_mem_nil, or_false, exists_eq_or_imp, exists_eq_left]
+  cases isProblemSolvedOrFeasible a.code <;> by_cases h0 : a.nObj = 0 <;> by_cases h1 : a.nObj > 1 <;>
+    simp [h0, h1] <;> omega
+
+/-- the solution is rounded (and the rounding note written) only when a solution candidate is indicated -/
+theorem C10_msg_round_only_candidates (a : Answer) (h : "call RoundSolution" ∈ msgSteps a) :
+    candidate a.code = true ∧ a.roundOpt = true ∧ a.isMIP = true := by
+  simp only [mem_msgSteps, msgTable, List.mem_cons, List.not_mem_nil, or_false, exists_eq_or_imp, exists_eq_left] at h
+  simp at h
+  exact ⟨(C10_solvedOrFeasible_iff a.code).mp h.1, h.2.1, h.2.2⟩
+
+-- an answer satisfying the hypothesis of `C10_msg_round_only_candidates`, and one for which rounding is requested but not done
+example : "call RoundSolution" ∈ msgSteps { code := 402, nObj := 1, hasPrimal := true, hasDual := false, roundOpt := true, isMIP := true } := by decide
+example : "call RoundSolution" ∉ msgSteps { code := 502, nObj := 1, hasPrimal := true, hasDual := false, roundOpt := true, isMIP := true } := by decide
+-- a complete message: steps of a solved MIP answer with feasrelax, kappa, an extra line, two pool solutions and warnings
+example : msgMarkers { code := 0, nObj := 1, hasPrimal := true, hasDual := true, feasrelax := true, origObj := true, kappaOpt := true,
+                       extraMsg := true, nAlt := 2, solStub := true, hasWarnings := true } =
+    ["status", "feasrelax", "objective", "original", "kappa", "extra", "alt", "warnings"] := by decide
+example : msgMarkers { code := 203, nObj := 1, hasPrimal := false, hasDual := true } = ["status"] := by decide
+
+/-- "feasrelax" / "Original objective" pieces = the `extras` fields -/
+theorem C10_msg_feasrelax_pieces (a : Answer) :
+    ("write feasrelax " ∈ msgSteps a ↔ (extras a).feasrelaxShown = true) ∧
+    ("write \nOriginal objective = {}" ∈ msgSteps a ↔ (extras a).origObjShown = true) := by
+  unfold extras
+  simp only [mem_msgSteps, msgTable, List.mem_cons, List.not_mem_nil, or_false, exists_eq_or_imp, exists_eq_left]
+  constructor <;>
+  (cases isProblemSolvedOrFeasible a.code <;> by_cases h0 : a.nObj = 0 <;> by_cases h1 : a.nObj > 1 <;>
+    simp [h0, h1] <;> omega)
+
+/-! ### the solve result registry -/
+
+theorem C10_regLt_strict_order (x y z : Int × Int) :
+    regLt x x = false ∧ (regLt x y = true → regLt y x = false) ∧ (regLt x y = true → regLt y z = true → regLt x z = true) := by
+  unfold regLt
+  simp only [Bool.or_eq_true, Bool.and_eq_true, decide_eq_true_eq, Bool.or_eq_false_iff, Bool.and_eq_false_imp, decide_eq_false_iff_not]
+  omega
+
+/-- two entries collide in the set exactly when they are the same range: overlapping or nested ranges are distinct
+    keys (so 100–199, 150–159 and the single code 150 coexist) -/
+theorem C10_regEquiv_iff (x y : Int × Int) : regEquiv x y = true ↔ x = y := by
+  unfold regEquiv regLt
+  rw [Prod.ext_iff]
+  simp only [Bool.and_eq_true, Bool.not_eq_true', Bool.or_eq_false_iff, Bool.and_eq_false_imp, decide_eq_false_iff_not, decide_eq_true_eq]
+  omega
+
+/-- listing order of `-!`: a range comes before the narrower ranges and the single code that start at the same code -/
+theorem C10_reg_wider_first (a b c : Int) (h : c < b) : regLt (a, b) (a, c) = true := by
+  unfold regLt; simp; omega
+
+-- instances: the hypothesis `c < b` (range before narrower range before single code); distinct overlapping keys; a collision
+example : regLt (100, 199) (100, 149) = true ∧ regLt (100, 149) (100, 100) = true ∧ regLt (100, 100) (150, 150) = true := by decide
+example : regEquiv (100, 199) (150, 159) = false ∧ regEquiv (150, 150) (150, 159) = false ∧ regEquiv (200, 299) (200, 299) = true := by decide
+
+/-- the pre-registered table is strictly ordered (what `-!` prints is in this order, no two rows collide) -/
+theorem C10_registry_strictly_ordered :
+    (registry.map (fun r => (r.1, r.2.1))).Pairwise (fun x y => regLt x y = true) := by decide
+
+/-- adding one entry: an error exactly when replacing is not allowed and the same range is present; otherwise the
+    entry is inserted in order; an entry whose range is present is *not* overwritten even if replacing is allowed -/
+theorem C10_addResults_one (reg : List RegRow) (e : RegRow) (canReplace : Bool) :
+    addResults reg [e] canReplace =
+      if Gen.StatusReport.addRejects canReplace (regPresent reg e) then none else some (regInsert reg e) := by
+  unfold addResults addResults Gen.StatusReport.addRejects
+  cases canReplace <;> cases regPresent reg e <;> rfl
+
+theorem C10_addResults_error_iff (reg : List RegRow) (e : RegRow) (canReplace : Bool) :
+    addResults reg [e] canReplace = none ↔ (canReplace = false ∧ ∃ r ∈ reg, (r.1, r.2.1) = (e.1, e.2.1)) := by
+  rw [C10_addResults_one]; unfold Gen.StatusReport.addRejects regPresent
+  cases canReplace <;> simp [C10_regEquiv_iff]
+
+-- instances: error branch, insertion branch, "can replace" keeps the old entry
+example : addResults registry [(200, 299, "again")] false = none := by decide
+example : (addResults registry [(421, 421, "custom")] false).map (fun r => r.map (fun x => (x.1, x.2.1))) =
+    some [(0, 99), (100, 199), (200, 299), (300, 349), (350, 399), (400, 449), (421, 421), (450, 469), (470, 499), (500, 999), (550, 550)] := by decide
+example : addResults registry [(200, 299, "again")] true = some registry := by decide
 
 /-! ## non-vacuity (concrete instances; named so that a failure is attributed to them) -/
 theorem C10_witness_solved : isProblemSolved 0 = true ∧ isProblemSolved 99 = true ∧ isProblemSolved 100 = false := by decide
